@@ -2,6 +2,11 @@ module verif/harness
 
 go 1.23.4
 
-require github.com/gcash/bchutil v0.0.0
+require (
+	github.com/gcash/bchd v0.20.0
+	github.com/gcash/bchutil v0.0.0
+)
+
+require github.com/dchest/siphash v1.2.3 // indirect
 
 replace github.com/gcash/bchutil => /repo
